@@ -1,9 +1,15 @@
 import EvoModel.Model.TextFormats
 import EvoModel.Model.Json
 import EvoModel.Drv.C07
+import EvoModel.Model.Containers
+import EvoModel.Gen.DfColumns
 /-! driver operations of C06: those of C07 (`rne`, `dec`, `num`, `tok`, `tum`, `kitti`, `bag`) plus
   `esc hex` → hex of the `json.dumps` string content;  `unesc hex` → hex of the decoded string | `E_FORMAT`;
-  `tokrows hex k x1 … xk` → `OK` | `BAD i` (every token of the written text vs. its double) -/
+  `tokrows hex k x1 … xk` → `OK` | `BAD i` (every token of the written text vs. its double)
+  `df t|p n v…` (`t`: 8 numbers per pose `stamp x y z qw qx qy qz`, `p`: 7) →
+      `names | index | col … | RT` (`RT` = 1 iff the model's `df_to_trajectory` gives the input back)
+  `zip L na name… nt (t|k name)…` (names hex; `L` = 1: load_trajectories) →
+      `member names | loaded array names | loaded trajectory names` or `NONE` -/
 namespace Evo.Drv.C06
 open Evo Evo.Text
 
@@ -21,6 +27,43 @@ def handle (op : String) (args : List String) : Option String :=
       let s ← Evo.Drv.C07.unhex h
       let (xs, _) ← readRatList rest
       some (match checkTokens s xs with | none => "OK" | some i => s!"BAD {i}")
+  | "df", v :: n :: rest => do
+      let n ← n.toNat?
+      let rs ← parseRats? rest
+      let w := if v = "t" then 8 else 7
+      if rs.length ≠ n * w then none else
+      let rows := (List.range n).map fun i => (rs.drop (i * w)).take w
+      let pose (r : List Rat) : Evo.Cont.Pose7 :=
+        let r := if v = "t" then r.drop 1 else r
+        ⟨r.getD 0 0, r.getD 1 0, r.getD 2 0, r.getD 3 0, r.getD 4 0, r.getD 5 0, r.getD 6 0⟩
+      let t : Evo.Cont.Traj := if v = "t" then .timed (rows.map (·.getD 0 0)) (rows.map pose) else .path (rows.map pose)
+      let df := Evo.Cont.trajToDfWith Evo.Gen.dfWriterSlots t
+      let rt := decide (Evo.Cont.dfToTrajWith Evo.Gen.dfReaderQuat Evo.Gen.dfReaderPos df = some t)
+      some (",".intercalate (df.cols.map (·.1)) ++ " | " ++
+        (match df.index with | some st => showRats st | none => "RANGE") ++
+        String.join (df.cols.map fun c => " | " ++ showRats c.2) ++ " | " ++ (if rt then "1" else "0"))
+  | "zip", l :: na :: rest => do
+      let na ← na.toNat?
+      let (an, rest) ← takeN na rest
+      let an ← an.mapM Evo.Drv.C07.unhex
+      match rest with
+      | nt :: rest => do
+        let nt ← nt.toNat?
+        if rest.length ≠ 2 * nt then none else
+        let pairs := (List.range nt).map fun i => (rest.getD (2 * i) "", rest.getD (2 * i + 1) "")
+        let tn ← pairs.mapM fun p => do
+          let n ← Evo.Drv.C07.unhex p.2
+          some (n, (if p.1 = "t" then Evo.Cont.Kind.tum else Evo.Cont.Kind.kitti), n)
+        let r : Evo.Cont.Res Unit Unit Str Str := ⟨(), (), an.map fun n => (n, n), tn⟩
+        let z := Evo.Cont.saveRes (fun _ t => t) r
+        let names (l : List Str) : String := " ".intercalate (l.map Evo.Drv.C07.tohex)
+        match Evo.Cont.loadRes (fun _ s => some s) (l = "1") z with
+        | none => some "NONE"
+        | some b =>
+          let ok := b.arrays.all (fun e => e.1 == e.2) && b.trajs.all (fun e => e.1 == e.2.2)
+          some (names (z.map (·.1)) ++ " | " ++ names (b.arrays.map (·.1)) ++ " | " ++ names (b.trajs.map (·.1))
+            ++ (if ok then " | 1" else " | 0"))
+      | _ => none
   | _, _ => Evo.Drv.C07.handle op args
 
 end Evo.Drv.C06
